@@ -86,103 +86,85 @@ def exSafe : E := .call "contains" [.var "a", .str "b"]
 /-- evaluate the chain specification on a concrete expression -/
 macro "spec_simp" : tactic => `(tactic| simp only [reports, chain, reportsList])
 
-/-! ### (a) is FALSE as stated: a safe call does not call `end()`
+/-! ### (a) the property, full strength
 
-`OnVisitNodeLeave` of a contains/startsWith/endsWith call only decrements `safeCalls` and returns: the
-cursor that was alive before the call survives it.  If an access segment (`.p`, `.*`, `[i]`) is applied
-directly to such a call, the segment's leave event moves that *stale* cursor.  Consequences, all
-three reproduced below with the generated trie:
-  * `contains(a, 'b')[github.head_ref]`: the index is visited first and leaves `github.head_ref`
-    pending; the safe call does not finish it; the index access then drops it (no `*` child).
-    The machine reports nothing although `github.head_ref` is read (false negative).
-  * `github.event == contains(a, 'b').issue.title`: the stale cursor `github.event` is moved by
-    `.issue.title`: the machine reports `github.event.issue.title`, which the expression never reads.
-  * `github.event.commits == contains(a, 'b').*.message`: same with the object filter. -/
+History: against the original Go code (a) was FALSE.  `OnVisitNodeLeave` of a
+contains/startsWith/endsWith call only decremented `safeCalls` and returned, so the cursor alive
+before the call survived it, and an access segment applied directly to the call moved that stale
+cursor (`exMiss`: a read of `github.head_ref` was not reported; `exGhost*`: paths that are never read
+were reported).  The Go code was repaired (leaving the outermost safe call now calls `end()`), the
+model follows it, and the four former witnesses are kept below as regression theorems. -/
 
-/-- `contains(a, 'b')[github.head_ref]` -/
-def exMiss : E := .index exSafe (.objDeref (.var "github") "head_ref")
-/-- `github.event == contains(a, 'b').issue.title` -/
-def exGhost : E := .cmp .eq (.objDeref (.var "github") "event") (.objDeref (.objDeref exSafe "issue") "title")
-/-- `github.event.commits == contains(a, 'b').*.message` -/
-def exGhostStar : E :=
-  .cmp .eq (.objDeref (.objDeref (.var "github") "event") "commits") (.objDeref (.arrDeref exSafe) "message")
-/-- `github.event.pages == contains(a, 'b')[contains(a, 'b')].page_name` -/
-def exGhostIdx : E :=
-  .cmp .eq (.objDeref (.objDeref (.var "github") "event") "pages") (.objDeref (.index exSafe exSafe) "page_name")
+theorem machine_eq_spec : machine_eq_spec_statement :=
+  fun Γ roots e => run_eq_reports roots Γ e
 
-theorem exMiss_machine : run AL.Gen.untrustedRoots (check exΓ exMiss).evs = [] := by
-  unfold exMiss exSafe; evs_simp; decide +kernel
-theorem exMiss_spec : reports AL.Gen.untrustedRoots exΓ.lower (definedIn exΓ) exMiss = [["github.head_ref"]] := by
-  unfold exMiss exSafe; spec_simp; decide +kernel
-
-theorem exGhost_machine : run AL.Gen.untrustedRoots (check exΓ exGhost).evs = [["github.event.issue.title"]] := by
-  unfold exGhost exSafe; evs_simp; decide +kernel
-theorem exGhost_spec : reports AL.Gen.untrustedRoots exΓ.lower (definedIn exΓ) exGhost = [] := by
-  unfold exGhost exSafe; spec_simp; decide +kernel
-
-theorem exGhostStar_machine :
-    run AL.Gen.untrustedRoots (check exΓ exGhostStar).evs = [["github.event.commits.*.message"]] := by
-  unfold exGhostStar exSafe; evs_simp; decide +kernel
-theorem exGhostStar_spec : reports AL.Gen.untrustedRoots exΓ.lower (definedIn exΓ) exGhostStar = [] := by
-  unfold exGhostStar exSafe; spec_simp; decide +kernel
-
-theorem exGhostIdx_machine :
-    run AL.Gen.untrustedRoots (check exΓ exGhostIdx).evs = [["github.event.pages.*.page_name"]] := by
-  unfold exGhostIdx exSafe; evs_simp; decide +kernel
-theorem exGhostIdx_spec : reports AL.Gen.untrustedRoots exΓ.lower (definedIn exΓ) exGhostIdx = [] := by
-  unfold exGhostIdx exSafe; spec_simp; decide +kernel
-
-theorem machine_eq_spec_counterexample : ¬ machine_eq_spec_statement := by
-  intro h
-  have := h exΓ AL.Gen.untrustedRoots exMiss
-  rw [exMiss_machine, exMiss_spec] at this
-  exact absurd this (by decide)
-
-/-- (a′) THE PROPERTY, with the side condition under which it holds: `ok Γ.lower (definedIn Γ) e`
-(`AL.Insecure.ok`, a decidable syntactic check) says that among the *visited* sub-expressions of `e`
-no access segment is applied directly to a contains/startsWith/endsWith call — no `contains(…).p`, no
-`contains(…).*`, and no `contains(…)[i]` unless `i` is a string literal or an access path rooted at
-neither a variable nor a safe call (`AL.Insecure.clean`; then no cursor can be alive when the index
-access fires).  Everything else is unrestricted: safe calls anywhere else (operands of operators,
-arguments, index position), arbitrary nesting, several chains, `.*`, narrowing.  Each excluded form is
-necessary: see `exMiss` (`[i]`), `exGhost` (`.p`), `exGhostStar` (`.*`), `exGhostIdx` (`[i]` with a
-safe call as `i`).  All excluded forms are type errors for the semantic checker (the calls return
-bool), but the linter still runs the untrusted-input pass on them. -/
-def machine_eq_spec_statement' : Prop :=
-  ∀ (Γ : Env) (roots : List Trie) (e : E), ok Γ.lower (definedIn Γ) e = true →
-    run roots (check Γ e).evs = reports roots Γ.lower (definedIn Γ) e
-
-theorem machine_eq_spec' : machine_eq_spec_statement' :=
-  fun Γ roots e hok => run_eq_reports roots Γ e hok
-
-example : ok exΓ.lower (definedIn exΓ) exBig = true := by decide +kernel
 example : run AL.Gen.untrustedRoots (check exΓ exBig).evs =
     [["github.event.pull_request.head.ref"], ["github.head_ref"]] := by
   unfold exBig; evs_simp; decide +kernel
 example : reports AL.Gen.untrustedRoots exΓ.lower (definedIn exΓ) exBig =
     [["github.event.pull_request.head.ref"], ["github.head_ref"]] := by
   unfold exBig; spec_simp; decide +kernel
--- the side condition really excludes the four witnesses, and only because of the safe-call root
-example : ok exΓ.lower (definedIn exΓ) exMiss = false ∧ ok exΓ.lower (definedIn exΓ) exGhost = false ∧
-    ok exΓ.lower (definedIn exΓ) exGhostStar = false ∧ ok exΓ.lower (definedIn exΓ) exGhostIdx = false := by
-  decide +kernel
--- `contains(a,'b')['x']`, `contains(a,'b')[0]`, `contains(a,'b')[format('{0}', github.head_ref)]` are fine
-example : ok exΓ.lower (definedIn exΓ) (.index exSafe (.str "x")) = true ∧
-    ok exΓ.lower (definedIn exΓ) (.index exSafe .num) = true ∧
-    ok exΓ.lower (definedIn exΓ) (.index exSafe (.call "format" [.str "{0}", .objDeref (.var "github") "head_ref"])) = true := by
-  decide +kernel
+
+/-- `contains(a, 'b')[github.head_ref]` — formerly NOT reported -/
+def exMiss : E := .index exSafe (.objDeref (.var "github") "head_ref")
+/-- `github.event == contains(a, 'b').issue.title` — formerly reported `github.event.issue.title` -/
+def exGhost : E := .cmp .eq (.objDeref (.var "github") "event") (.objDeref (.objDeref exSafe "issue") "title")
+/-- `github.event.commits == contains(a, 'b').*.message` — formerly reported `github.event.commits.*.message` -/
+def exGhostStar : E :=
+  .cmp .eq (.objDeref (.objDeref (.var "github") "event") "commits") (.objDeref (.arrDeref exSafe) "message")
+/-- `github.event.pages == contains(a, 'b')[contains(a, 'b')].page_name` — formerly reported
+`github.event.pages.*.page_name` -/
+def exGhostIdx : E :=
+  .cmp .eq (.objDeref (.objDeref (.var "github") "event") "pages") (.objDeref (.index exSafe exSafe) "page_name")
+
+theorem exMiss_fixed : run AL.Gen.untrustedRoots (check exΓ exMiss).evs = [["github.head_ref"]] := by
+  unfold exMiss exSafe; evs_simp; decide +kernel
+theorem exMiss_spec : reports AL.Gen.untrustedRoots exΓ.lower (definedIn exΓ) exMiss = [["github.head_ref"]] := by
+  unfold exMiss exSafe; spec_simp; decide +kernel
+
+theorem exGhost_fixed : run AL.Gen.untrustedRoots (check exΓ exGhost).evs = [] := by
+  unfold exGhost exSafe; evs_simp; decide +kernel
+theorem exGhost_spec : reports AL.Gen.untrustedRoots exΓ.lower (definedIn exΓ) exGhost = [] := by
+  unfold exGhost exSafe; spec_simp; decide +kernel
+
+theorem exGhostStar_fixed : run AL.Gen.untrustedRoots (check exΓ exGhostStar).evs = [] := by
+  unfold exGhostStar exSafe; evs_simp; decide +kernel
+theorem exGhostStar_spec : reports AL.Gen.untrustedRoots exΓ.lower (definedIn exΓ) exGhostStar = [] := by
+  unfold exGhostStar exSafe; spec_simp; decide +kernel
+
+theorem exGhostIdx_fixed : run AL.Gen.untrustedRoots (check exΓ exGhostIdx).evs = [] := by
+  unfold exGhostIdx exSafe; evs_simp; decide +kernel
+theorem exGhostIdx_spec : reports AL.Gen.untrustedRoots exΓ.lower (definedIn exΓ) exGhostIdx = [] := by
+  unfold exGhostIdx exSafe; spec_simp; decide +kernel
+
+/-- the four former witnesses, now instances of the theorem (machine = spec), independently of the
+two evaluations above -/
+theorem witnesses_agree :
+    ∀ e ∈ [exMiss, exGhost, exGhostStar, exGhostIdx],
+      run AL.Gen.untrustedRoots (check exΓ e).evs = reports AL.Gen.untrustedRoots exΓ.lower (definedIn exΓ) e :=
+  fun e _ => machine_eq_spec exΓ AL.Gen.untrustedRoots e
+
+-- a chain pending BEFORE a safe call is still reported (the call ends it): `github.head_ref == contains(a, 'b')`
+example : run AL.Gen.untrustedRoots (check exΓ (.cmp .eq (.objDeref (.var "github") "head_ref") exSafe)).evs =
+    [["github.head_ref"]] := by
+  unfold exSafe; evs_simp; decide +kernel
 
 /-! ### (c) -/
 
 theorem safe_call_silent : safe_call_silent_statement := by
   intro Γ roots c args hc
-  rw [run_eq, transp_safe roots Γ (.call c args) (by simpa [isSafeE] using hc)]
+  rw [run_eq, safe_finish roots Γ (.call c args) (by simpa [isSafeE] using hc) {} rfl]
   rfl
 
 -- `startsWith(github.head_ref, github.event.issue.title)` — even in upper case, even nested
 example : run AL.Gen.untrustedRoots (check exΓ (.call "StartsWith"
     [.objDeref (.var "github") "head_ref",
      .call "format" [.str "{0}", .objDeref (.objDeref (.objDeref (.var "github") "event") "issue") "title"]])).evs = [] := by
+  evs_simp; decide +kernel
+-- nested safe calls: `contains(endsWith(github.head_ref, 'x'), github.event.issue.title)`
+example : run AL.Gen.untrustedRoots (check exΓ (.call "contains"
+    [.call "endsWith" [.objDeref (.var "github") "head_ref", .str "x"],
+     .objDeref (.objDeref (.objDeref (.var "github") "event") "issue") "title"])).evs = [] := by
   evs_simp; decide +kernel
 
 /-! ### (b) -/
